@@ -15,5 +15,10 @@ int main(int argc, char** argv) {
   assign(s, $S("ab")); concat(s, $S("cd")); expect(s, "abcd", "concat"); append(s, $S("")); expect(s, "abcd", "append empty");
   resize(s, 2); expect(s, "ab", "resize down"); resize(s, 5); expect(s, "ab", "resize up keeps the text");
   if (mem(s, $S("b")) != 1 || mem(s, $S("ba")) != 0 || mem(s, $S("")) != 1) { printf("REPRODUCED: mem disagrees with strstr\n"); bad = 1; }
+  /* operands overlapping the target's own buffer */
+  { var t = new(String, $S("abcdef")); assign(t, $S(c_str(t) + 2)); expect(t, "cdef", "assign from a view of the target's own buffer"); }
+  { var t = new(String, $S("abcdef")); assign(t, t); expect(t, "abcdef", "assign(s, s)"); }
+  { var t = new(String, $S("abc")); concat(t, t); expect(t, "abcabc", "concat(s, s)"); }
+  { var t = new(String, $S("abcdefghijklmnopqrstuvwxyz0123456789")); concat(t, $S(c_str(t) + 30)); expect(t, "abcdefghijklmnopqrstuvwxyz0123456789456789", "concat with a view of the target's own buffer"); }
   return bad;
 }
